@@ -20,6 +20,7 @@ import (
 	"go/parser"
 	"os"
 	"path/filepath"
+	"strconv"
 
 	"golang.org/x/tools/go/loader"
 )
@@ -46,8 +47,17 @@ func hideDerived(paths []string) []hiddenFile {
 			continue
 		}
 		orig := filepath.Join(bp.Dir, derivedFilename)
+		if _, err := os.Lstat(orig); err != nil {
+			continue
+		}
+		// never touch a file of the user's: pick a name that is not taken.
 		aside := orig + ".old"
-		os.Remove(aside)
+		for i := 1; ; i++ {
+			if _, err := os.Lstat(aside); os.IsNotExist(err) {
+				break
+			}
+			aside = orig + ".old" + strconv.Itoa(i)
+		}
 		if err := os.Rename(orig, aside); err == nil {
 			hidden = append(hidden, hiddenFile{orig: orig, aside: aside})
 		}
